@@ -16,7 +16,9 @@ v('c06-skip-deserialize','R-C06.3','models.py',"            return ProjectSignat
 v('c06-index-tuple-not-normalised','R-C06.4',G,"""                if isinstance(value, tuple):
                     value = list(value)
 
-""","")
+""","",expect='silent',note='since 13d8fcc __eq__ compares the stored form on both sides, so the shallow conversion in __init__ is no longer needed for equality')
+v('c06-eq-raw-compare','R-C06.4',G,"""                (_get_stored_form(self.attrs) ==
+                 _get_stored_form(other.attrs)))""","""                dict.__eq__(self.attrs, other.attrs))""",note='the defect fixed in 13d8fcc')
 v('c06-serializer-one-way','R-C06.5','serialization.py',"""    def deserialize_from_signature(cls, payload):
         \"\"\"Deserialize dictionary signature data to a value.""","""    def _deserialize_from_signature(cls, payload):
         \"\"\"Deserialize dictionary signature data to a value.""")
